@@ -25,6 +25,7 @@ fn with_prop(id: &str, f: &mut dyn FnMut(&dyn Runner) -> i32) -> i32 {
         "C10" => f(&props::c10::prop()),
         "C11" => f(&props::c11::prop()),
         "C12" => f(&props::c12::prop()),
+        "C14" => f(&props::c14::prop()),
         "C15" => f(&props::c15::prop()),
         "C16" => f(&props::c16::prop()),
         "C17" => f(&props::c17::C17),
